@@ -75,6 +75,9 @@ EXPR_PAIRS = [
     ('[(last := r.amount) for r in orders]', 'last'), ('(amount := 5) == 5', 'amount'), ('(orders := 1) == 1', 'len(orders)'),
     ('date >= "2024-01-01"', 'date == "2024-03-05"'),
     # an expression that cannot be evaluated (bad regular expression) cannot be evaluated the second time either
+    # the same text and pattern at a rising threshold: how similar two strings are does not depend on who asked before
+    ('fuzzy("SQ *STARBUCKS #1234", "STARBUCKS", 0.8)', 'fuzzy("sq *starbucks #1234", "starbucks", 0.95)'), ('fuzzy("ETFLIX")', 'fuzzy("ETFLIX", 0.97)'),
+    ('fuzzy(field.memo, "EF 1", 0.7)', 'fuzzy(field.memo, "EF 1", 1.0)'), ('fuzzy("TARBUCK", 0.5)', 'fuzzy("TARBUCK", 0.9)'),
     ('not regex("SAMS(CLUB")', 'regex("SAMS(CLUB") or contains("e")'), ('extract("A(B") == ""', 'not regex("[a-")'), ('regex("SAMS(CLUB")', 'not regex("SAMS(CLUB")'),
 ]
 VARS_RULES = '''is_wire = field.type == "WIRE"
@@ -310,6 +313,13 @@ class History(RuleBasedStateMachine):
         if any(s[2] == which and s[4] != v for s in prior):
             self.classes.add('same_expr_different_vars')
         self.compare({'k': 'eval', 'src': EXPR_PAIRS[p][which], 'txn': self.txns[t % len(self.txns)], 'vars': v, 'rows': self.rows})
+
+    @precondition(lambda self: self.files is not None)
+    @rule(p=st.integers(0, len(EXPR_PAIRS) - 1), first=st.integers(0, 1), t=st.integers(0, 5), v=st.sampled_from([{'label': 'x', 'threshold': 9}, None]))
+    def eval_pair(self, p, first, t, v):
+        """both members of a pair, back to back, for the same transaction"""
+        self.eval_expr(p, first, t, v)
+        self.eval_expr(p, 1 - first, t, v)
 
     @precondition(lambda self: self.files is not None)
     @rule(e=lang.bool_expr(2), t=st.integers(0, 5))
